@@ -1,6 +1,6 @@
 (* The property-level statements of C01 / C02 / C04 over KeySys, in the form Props/*.v cites them. *)
 From KB Require Import Model.KeySys Model.C01Cases Model.C02Cases Model.C04Cases.
-From KB Require Import Proofs.RevSys Proofs.KeySys Proofs.KeySysLog Proofs.KeySysChain Proofs.KeySysFail.
+From KB Require Import Proofs.RevSys Proofs.KeySys Proofs.KeySysLog Proofs.KeySysChain Proofs.KeySysFail Proofs.KeySysJust.
 From Coq Require Import ZifyN ZifyNat ZifyBool Lia.
 Local Open Scope N_scope.
 
@@ -177,31 +177,16 @@ Definition ex_state : state := krun true ex_labels (kinit 10 ex_store).
 Lemma ex_reach : reach true 10 ex_store ex_state.
 Proof. split; [apply ex_store_wf|exists ex_labels; reflexivity]. Qed.
 
-(* ---------- C01_failure_justified: the faithful model refutes the full statement (finding C01-F1) ---------- *)
+(* ---------- C01_failure_justified ---------- *)
 
-Definition quiet_label (l : label) : Prop :=
-  match l with
-  | LEngine _ EnvConflictAbort => False
-  | LInvoke _ (RqCreate _ v) | LInvoke _ (RqUpdate _ v _) => v <> tombstone
-  | _ => True
-  end.
-
-Definition no_marker_store (store : key -> kstate) : Prop :=
-  forall k r v, In (r, v) (k_vers (store k)) -> k_idx (store k) = Some (r, false) -> v <> tombstone.
-
-(* the justification of a failed condition: the ghost flag, or — for an unguarded delete, which expects
-   the key to stay as it found it — another commit on its key since its LInvoke *)
-Definition justified_at (s : state) (t : tid) : Prop :=
-  seen s t = true \/
-  (exists k l2 l1 l0 t' q' a rev f v pred,
-     log s = l2 ++ EApplied t' q' k a rev f v pred :: l1 ++ EInvoke t (RqDelete k 0) :: l0 /\
-     Forall (fun e => match e with EInvoke t0 _ | EReturn t0 _ => t0 <> t | _ => True end) (l2 ++ l1)).
-
-Definition failure_justified_statement (allowed : label -> Prop) : Prop :=
-  forall cidx0 d0 store ls, wf_store d0 store -> no_marker_store store ->
-    Forall (fun l => quiet_label l /\ allowed l) ls ->
+(* the full statement: every "condition failed" is justified by a state in which the key differed from the
+   expectation (ghost flag `seen`), or — unguarded delete — by another commit on its key in flight *)
+Definition failure_justified_full : Prop :=
+  forall cidx0 d0 store ls, wf_store d0 store -> no_marker_store store -> Forall quiet_label ls ->
     let s := krun cidx0 ls (kinit d0 store) in
-    forall t r, thr s t = PReturn r -> resp_cond_failed r = true -> justified_at s t.
+    forall t r, thr s t = PReturn r -> resp_cond_failed r = true ->
+      exists q, cur s t = Some q /\
+        (seen s t = true \/ (unguarded_delete q = true /\ applied_since t (req_key q) (log s) = true)).
 
 Definition f1_store : key -> kstate :=
   fun k => if k =? 0 then {| k_idx := Some (5, true); k_vers := [(5, tombstone); (4, [1])] |} else k_empty.
@@ -223,31 +208,25 @@ Proof.
   - discriminate.
 Qed.
 
-Lemma failure_justified_refuted : ~ failure_justified_statement (fun _ => True).
+Lemma failure_justified_refuted : ~ failure_justified_full.
 Proof.
   intros H.
-  assert (Hq : Forall (fun l => quiet_label l /\ True) f1_labels).
+  assert (Hq : Forall quiet_label f1_labels).
   { unfold f1_labels. repeat constructor; simpl; discriminate. }
   assert (Hm : no_marker_store f1_store).
   { intros k r v. unfold f1_store. destruct (k =? 0); simpl; [|contradiction]. intros _ [=]. }
-  (* the three facts about the concrete run, each by evaluation in the VM *)
   assert (F1 : thr (krun true f1_labels (kinit 10 f1_store)) 0 = PReturn (RespCreate 11 false))
     by (vm_compute; reflexivity).
   assert (F2 : seen (krun true f1_labels (kinit 10 f1_store)) 0 = false) by (vm_compute; reflexivity).
-  assert (F3 : forall k, ~ In (EInvoke 0 (RqDelete k 0)) (log (krun true f1_labels (kinit 10 f1_store)))).
-  { assert (Hl : exists l, log (krun true f1_labels (kinit 10 f1_store)) = l /\
-                           forall k, ~ In (EInvoke 0 (RqDelete k 0)) l).
-    { eexists. split; [vm_compute; reflexivity|].
-      intros k Hin. simpl in Hin. repeat (destruct Hin as [Hin|Hin]; [discriminate|]). exact Hin. }
-    destruct Hl as [l [-> Hl]]. exact Hl. }
+  assert (F3 : cur (krun true f1_labels (kinit 10 f1_store)) 0 = Some (RqCreate 0 [9])) by (vm_compute; reflexivity).
   specialize (H true 10 f1_store f1_labels f1_store_wf Hm Hq).
   revert H F1 F2 F3. generalize (krun true f1_labels (kinit 10 f1_store)). intros s H F1 F2 F3.
-  cbv zeta in H. specialize (H 0 (RespCreate 11 false) F1 eq_refl).
-  destruct H as [H|(k & l2 & l1 & l0 & t' & q' & a & rev & f & v & pred & E & _)].
-  - rewrite F2 in H. discriminate.
-  - apply (F3 k). rewrite E. apply in_or_app. right. right. apply in_or_app. right. left. reflexivity.
+  cbv zeta in H. destruct (H 0 (RespCreate 11 false) F1 eq_refl) as [q [Hc [E|[E _]]]].
+  - rewrite F2 in E. discriminate.
+  - rewrite F3 in Hc. injection Hc as <-. discriminate.
 Qed.
 
-(* without asynchronous rewrites in the label list: stated, not proved *)
-Definition failure_justified_except_rewrite : Prop :=
-  failure_justified_statement (fun l => match l with LInvoke _ (RqRewrite _ _) => False | _ => True end).
+(* … and the signature of the finding really occurs in that run *)
+Lemma f1_signature_occurs :
+  stamp_since 0 0 (log (krun true f1_labels (kinit 10 f1_store))) = true.
+Proof. vm_compute. reflexivity. Qed.
